@@ -541,7 +541,10 @@ def _shared(ctx, counts) -> list:
     from .c18_seqtypes import r18_9
     r9 = r18_9(ctx, counts)
     r9.title = 'XS-DOUBLE-IS-PLAIN-FLOAT (R07.7 = R18.9: promoted operands compare exactly)'
-    return [r08_4(ctx, counts), r11_2(ctx, counts), r11_8(ctx, counts), r9]
+    from .c10_datatypes import r10_14
+    r10 = r10_14(ctx, counts)
+    r10.title = 'BINARY-COMPARES-OCTETS (R07.8 = R10.14: lt/le/gt/ge on binary values)'
+    return [r08_4(ctx, counts), r11_2(ctx, counts), r11_8(ctx, counts), r9, r10]
 
 
 def r07_5(ctx, counts) -> RuleResult:
